@@ -255,7 +255,7 @@ theorem Frame_validate (cfg : StructCfg) (name : Bytes) (v : GoVal) (g : Bool) :
   | int _ _ => intro st; rw [validate, validate]; exact Frame_nonStruct _ _ _ st
   | uint _ _ => intro st; rw [validate, validate]; exact Frame_nonStruct _ _ _ st
   | float _ _ _ _ => intro st; rw [validate, validate]; exact Frame_nonStruct _ _ _ st
-  | iface _ => intro st; rw [validate, validate]; exact Frame_nonStruct _ _ _ st
+  | iface _ _ => intro st; rw [validate, validate]; exact Frame_nonStruct _ _ _ st
   | slice _ _ _ _ => intro st; rw [validate, validate]; exact Frame_nonStruct _ _ _ st
   | array _ _ _ => intro st; rw [validate, validate]; exact Frame_nonStruct _ _ _ st
   | map _ _ _ _ => intro st; rw [validate, validate]; exact Frame_nonStruct _ _ _ st
@@ -311,7 +311,7 @@ theorem Frame_existTop (cfg : StructCfg) (sn fname : Bytes) (v : GoVal) (k skip 
   | int _ _ => intro st; rw [existTop, existTop]; exact Frame_existScalar _ _ _ _ _ _ st
   | uint _ _ => intro st; rw [existTop, existTop]; exact Frame_existScalar _ _ _ _ _ _ st
   | float _ _ _ _ => intro st; rw [existTop, existTop]; exact Frame_existScalar _ _ _ _ _ _ st
-  | iface _ => intro st; rw [existTop, existTop]; exact Frame_existScalar _ _ _ _ _ _ st
+  | iface _ _ => intro st; rw [existTop, existTop]; exact Frame_existScalar _ _ _ _ _ _ st
   | other _ _ _ _ => intro st; rw [existTop, existTop]; exact Frame_existScalar _ _ _ _ _ _ st
 
 theorem Frame_existStripped (cfg : StructCfg) (sn fname : Bytes) (v : GoVal) (k skip : Bool) (cus : Bytes) :
@@ -339,7 +339,7 @@ theorem Frame_existStripped (cfg : StructCfg) (sn fname : Bytes) (v : GoVal) (k 
   | int _ _ => intro st; rw [existStripped, existStripped]; exact Frame_existScalar' _ _ _ _ _ st
   | uint _ _ => intro st; rw [existStripped, existStripped]; exact Frame_existScalar' _ _ _ _ _ st
   | float _ _ _ _ => intro st; rw [existStripped, existStripped]; exact Frame_existScalar' _ _ _ _ _ st
-  | iface _ => intro st; rw [existStripped, existStripped]; exact Frame_existScalar' _ _ _ _ _ st
+  | iface _ _ => intro st; rw [existStripped, existStripped]; exact Frame_existScalar' _ _ _ _ _ st
   | other _ _ _ _ => intro st; rw [existStripped, existStripped]; exact Frame_existScalar' _ _ _ _ _ st
 
 theorem Frame_elemsLoop (cfg : StructCfg) (path : Bytes) (i : Nat) (es : GoVals) : Frame (elemsLoop cfg path i es) := by
